@@ -163,6 +163,8 @@ func main() {
 	fmt.Printf("siminstr: %d sites (%s)\n", siteN, strings.Join(ks, " "))
 }
 
+var nLoops int
+
 func instrumentFile(p *packages.Package, f *ast.File) {
 	fset := p.Fset
 	info := p.TypesInfo
@@ -243,11 +245,25 @@ func instrumentFile(p *packages.Package, f *ast.File) {
 				changed = true
 			}
 		case *ast.RangeStmt:
+			isChan := false
 			if t := info.TypeOf(x.X); t != nil {
 				if _, ok := t.Underlying().(*types.Chan); ok {
+					isChan = true
 					x.X = &ast.CallExpr{Fun: sel("Chan"), Args: []ast.Expr{site(fset, x.Pos(), "range"), x.X}}
 					changed = true
 				}
+			}
+			if !isChan && x.Body != nil {
+				// loops that never block are counted: a goroutine that iterates for ever is a hang
+				x.Body.List = append([]ast.Stmt{&ast.ExprStmt{X: &ast.CallExpr{Fun: sel("LoopTick")}}}, x.Body.List...)
+				changed = true
+				nLoops++
+			}
+		case *ast.ForStmt:
+			if x.Body != nil {
+				x.Body.List = append([]ast.Stmt{&ast.ExprStmt{X: &ast.CallExpr{Fun: sel("LoopTick")}}}, x.Body.List...)
+				changed = true
+				nLoops++
 			}
 		case *ast.CallExpr:
 			if id, ok := x.Fun.(*ast.Ident); ok && id.Name == "close" {
